@@ -242,6 +242,12 @@ type rec struct {
 
 func randRec(c *core.Ctx, withQual bool) rec {
 	r := rec{ID: gen.RandID(c.Rng, c.Rng.Intn(3) == 0)}
+	if c.Rng.Intn(10) == 0 {
+		// identifiers are not always ASCII; what ends an identifier on a title line is a space or a
+		// tab, not every character that Unicode classifies as white space
+		at := c.Rng.Intn(len(r.ID) + 1)
+		r.ID = r.ID[:at] + string([]rune{0x00A0, 0x2009, 0x202F, 0x3000, 0x00E9, 0x03A9, 0x2028, 0x0085}[c.Rng.Intn(8)]) + r.ID[at:]
+	}
 	l := []int{1, 2, 59, 60, 61, 119, 120, 121, 1 + c.Rng.Intn(200)}[c.Rng.Intn(9)]
 	r.Seq = string(gen.DNAIupac(c.Rng, l, []int{0, 100}[c.Rng.Intn(2)]))
 	if withQual {
@@ -599,9 +605,21 @@ func runStream(c *core.Ctx) {
 	n := 1 + c.Rng.Intn(c.Pick(40, 300))
 	var recs []rec
 	sl := obiseq.MakeBioSequenceSlice(0)
+	long := c.Idx%16 == 7 || c.Idx%16 == 8
+	if long {
+		n = 6 // genomes, contigs: sequences of a megabase and more, lengths on both sides of 2^20 and of the multiples of the line width
+	}
 	for i := 0; i < n; i++ {
 		r := randRec(c, fastq)
 		r.ID = fmt.Sprintf("%s_%d", r.ID, i)
+		if long {
+			l := []int{1 << 20, 1<<20 + 1, 1048560, 1048620, 1048620 + 60*c.Rng.Intn(50), 1<<20 + c.Rng.Intn(100000), 2097120, 1<<20 - 1}[(i+c.Idx)%8]
+			r.Seq = string(gen.DNA(c.Rng, l))
+			if fastq {
+				r.Qual = bytes.Repeat([]byte{byte(10 + c.Rng.Intn(30))}, l)
+			}
+			c.Count("records_of_a_megabase_and_more", 1)
+		}
 		recs = append(recs, r)
 		sl = append(sl, r.bio())
 	}
@@ -625,6 +643,9 @@ func runStream(c *core.Ctx) {
 	// the file is read back through read buffers of several sizes: what the toolkit writes must not
 	// be cut at a place its own chunk splitter mistakes for a record start
 	chunk := []int{0, 50, 200, 1000, 4000}[c.Rng.Intn(5)]
+	if long {
+		chunk = 0 // the real read buffers: growing a tiny forced buffer up to a megabase record costs minutes
+	}
 	obiverif.SetChunk(chunk)
 	defer obiverif.SetChunk(0)
 	rd, err := obiformats.ReadSequencesFromFile(path, obiformats.OptionsParallelWorkers(1+c.Rng.Intn(4)))
@@ -684,6 +705,11 @@ func runStream(c *core.Ctx) {
 					break
 				}
 			}
+		}
+		if bad != "" && long {
+			det["record_id"], det["expected_length"], det["read_back_length"] = r.ID, len(r.Seq), s.Len()
+			c.Violate("stream:long:"+bad, "a record of a megabase or more written to a file and read back through the real reader differs", det)
+			return
 		}
 		if bad != "" {
 			det["record"] = r
